@@ -141,6 +141,11 @@ func checkC02(c *CheckCtx) error {
 }
 
 func checkC03(c *CheckCtx) error {
+	if c.thorough() {
+		if err := c.contractModel(false); err != nil {
+			return err
+		}
+	}
 	c.Rule = "histories of test executions over initial files: TLC-emitted (free and simulated) and seeded random programs with repeated executions, interleaved lifetimes, prefix-related names, >9 calls, failing calls; non-trivial = distinct history"
 	c.Assumptions = []string{framingAssumptions, "k counts the calls of one execution of a test that resolve to the same multi-entry file"}
 	if err := framingModel(c); err != nil {
